@@ -3,6 +3,7 @@
 From Coq Require Import ZArith List Bool.
 From Coq Require Import PrimFloat.
 From PV Require Import Model.Base Model.Sched Model.Chan Model.Seq.
+From PV Require Gen.PureLimits Proofs.PureLimitsEq.
 From PV Require Import Proofs.SchedInv Proofs.SeqInv Proofs.LimitsSpec.
 Import ListNotations.
 Open Scope Z_scope.
@@ -107,3 +108,24 @@ Theorem C01_rounded_duration_within_max_partial :
     validate_duration g d = Ok d' -> d' <= m.
 Proof. exact rounded_duration_within_max_partial. Qed.
 Print Assumptions C01_rounded_duration_within_max_partial.
+
+(** Tie to the source by translation: the limit checks the theorems above are
+    stated over are EQUAL to the functions regenerated from the current source of
+    Channel.validate_pulse and DMM.validate_pulse by translate/tr_pure.py, with
+    numpy's reductions read through the pulse's sample summary
+    (np.any(X > c) = (max X > c), np.any(X < c) = (min X < c),
+    max (round6 X) = round6 (max X), max |X| = max-abs X). *)
+Theorem C01_source_validate_pulse :
+  forall (c : ccfg) (u : upulse),
+    Gen.PureLimits.gen_validate_pulse (c_maxamp c) (c_maxdet c) (c_minavg c)
+      (u_amax u) (u_avg u) (u_dabsmax u) = validate_pulse c u.
+Proof. exact PureLimitsEq.validate_pulse_eq. Qed.
+Print Assumptions C01_source_validate_pulse.
+
+Theorem C01_source_validate_pulse_dmm :
+  forall (c : ccfg) (w : float * float) (u : upulse),
+    Gen.PureLimits.gen_validate_pulse_dmm (c_maxamp c) (c_maxdet c) (c_minavg c)
+      (u_amax u) (u_avg u) (u_dabsmax u) (c_bottom c) (c_totbottom c)
+      (u_dmax u) (u_dmin u) (fst w) (snd w) = validate_pulse_dmm c w u.
+Proof. exact PureLimitsEq.validate_pulse_dmm_eq. Qed.
+Print Assumptions C01_source_validate_pulse_dmm.
